@@ -27,7 +27,7 @@ ASSUMPTIONS = ['metrics obey the triangle inequality (euclidean, manhattan, cheb
                'clauses that compare two runs bit for bit (shortcut on/off, prefix runs) are evaluated only on '
                'scenarios the float64 model classifies as tie-free',
                'stopping decisions within 1e-11 relative of the cutoff (4e-6 for float32 data, whose kernel subtracts in float32) are accepted either way']
-REACH_EXPECTED = ['cutoff_just_below_radius', 'stop_by_count', 'stop_by_cutoff', 'zero_iterations_warm_start', 'triangle_shortcut_compared',
+REACH_EXPECTED = ['rmsd_trajectory_data', 'cutoff_just_below_radius', 'stop_by_count', 'stop_by_cutoff', 'zero_iterations_warm_start', 'triangle_shortcut_compared',
                   'mpi_run', 'two_approx_checked', 'prefix_checked', 'init_centers_run', 'init_centers_as_list']
 
 
@@ -37,7 +37,7 @@ def scenario(ctx):
     mpi = t.flag(2, 5)
     deep = ctx.tier == 'thorough' and t.flag(1, 4)
     P = C.Problem(ctx, want_ranks=mpi, max_ranks=10 if deep else 6, max_frames=(150 if deep else 40) if not t.flag(1, 4) else 9,
-                  max_traj=30 if deep else 24, max_len=14 if deep else 9)
+                  max_traj=30 if deep else 24, max_len=14 if deep else 9, allow_rmsd=True)
     if mpi and P.N == 1 and t.flag():
         mpi = False
     k, cutoff = P.draw_stop(ctx)
@@ -54,11 +54,11 @@ def scenario(ctx):
     init_list = None
     if init is not None:
         if t.flag():
-            init_list = [P.X[i].copy() for i in init]          # a plain list of frames
+            init_list = [P.wrap(P.X[i].copy()) for i in init]          # a plain list of frames
             spec['init_centers'] = init_list
             ctx.hit('init_centers_as_list')
         else:
-            spec['init_centers'] = P.X[init].copy()
+            spec['init_centers'] = P.wrap(P.X[init].copy())
     ctx.scenario.update(P.describe(), setting='mpi' if mpi else 'serial', form=form, n_clusters=k, dist_cutoff=cutoff,
                         triangle=tri, init_frames=init, poison=poison)
     ctx.fp('c02', mpi, P.N, tuple(P.lengths), P.dtype, P.metric_name, form, k, cutoff, tri, tuple(init or ()),
@@ -72,9 +72,9 @@ def scenario(ctx):
 
     g = run(spec)
     if init_list is not None:
-        require(len(init_list) == len(init) and all(np.array_equal(a_, P.X[i]) for a_, i in zip(init_list, init)), 'input_modified',
+        require(len(init_list) == len(init) and all(M.frame_equal(P.metric_name, clrun.ctr(a_), P.X[i]) for a_, i in zip(init_list, init)), 'input_modified',
                 lambda: 'the list passed as init_centers had %d entries before the call and has %d after it' % (len(init), len(init_list)))
-    model, tie_free = M.greedy_run(P.X, P.model_metric, k, cutoff, init=init, tol=P.tie_tol(), cut_tol=P.cut_tol())
+    model, tie_free = M.greedy_run(P.X, P.model_metric, k, cutoff, init=init, tol=P.tie_tol(), cut_tol=P.cut_tol(), noise=P.noise)
     check_greedy(ctx, P, g, k, cutoff, init)
     if len(g.ci) >= 2:
         ctx.nontrivial = True
@@ -85,7 +85,7 @@ def scenario(ctx):
         # new centre and its current one - there rounding may legitimately decide differently in the two variants
         if form == 'function' and model.assign_margin > P.tie_tol():
             g2 = run(dict(spec, tri=not tri), suffix='2')
-            require(g2.ci == g.ci and np.array_equal(g2.labels, g.labels) and np.array_equal(g2.distances, g.distances),
+            require(g2.ci == g.ci and np.array_equal(g2.labels, g.labels) and P.same_dist(g2.distances, g.distances),
                     'triangle_shortcut_differs', lambda: 'with shortcut=%s centres %s, with %s centres %s; labels differ at %s, '
                     'distances differ at %s' % (tri, g.ci, not tri, g2.ci, np.where(g2.labels != g.labels)[0][:6].tolist(),
                                                 np.where(g2.distances != g.distances)[0][:6].tolist()))
@@ -104,7 +104,7 @@ def scenario(ctx):
     if P.n <= 9 and init is None:
         opt = M.optimal_radius(P.X, P.model_metric, len(g.ci))
         rad = float(np.max(g.distances))
-        require(rad <= 2 * opt * (1 + M.rtol_for(P.dtype) * 8) + 1e-300, 'not_2_approx',
+        require(rad <= 2 * opt * (1 + M.rtol_for(P.dtype) * 8) + 1e-300 + 2 * float(P.noise(opt)), 'not_2_approx',
                 lambda: 'final radius %.17g > 2 x optimum %.17g for %d centres' % (rad, opt, len(g.ci)))
         ctx.postcond('two_approx')
         ctx.hit('two_approx_checked')
@@ -166,5 +166,5 @@ def check_greedy(ctx, P, g, k, cutoff, init):
     if K == m and init is not None:
         ctx.hit('zero_iterations_warm_start')
     # reported distances: maximum equals the covering radius of the reported centres
-    require(abs(float(np.max(g.distances)) - r_end) <= rtol * max(r_end, 1.0), 'radius_mismatch',
+    require(abs(float(np.max(g.distances)) - r_end) <= rtol * max(r_end, 1.0) + float(P.noise(r_end)), 'radius_mismatch',
             lambda: 'max reported distance %.17g, covering radius of the reported centres %.17g' % (np.max(g.distances), r_end))
